@@ -477,6 +477,9 @@ theorem facts_c01 :
       ["TrackNames(convtypes.ResourceIngress,name,convtypes.ResourceHABackend,backend.ID)",
        "TrackNames(convtypes.ResourceIngress,name,ctx,tcpPortTrackingName(port))",
        "TrackNames(convtypes.ResourceIngress,name,ctx,normalizeHostname(\"\",port))",
+       -- guarded by Global().StrictHost (second strict-host repair; strict-host is outside the M-Sync fragment:
+       -- Props/C01Tie.lean strict_default_dirty / strict_borrower_dirty and the end-to-end family c01strict)
+       "TrackNames(convtypes.ResourceIngress,name,ctx,hatypes.DefaultHost)",
        "TrackNames(convtypes.ResourceIngress,name,ctx,hostname)",
        "TrackNames(convtypes.ResourceIngress,name,ctx,normalizeHostname(rule.Host,port))",
        "TrackNames(convtypes.ResourceIngress,name,convtypes.ResourceHABackend,backend.ID)"] ∧
